@@ -85,7 +85,8 @@ Required(k, embedded, obs) ==
 \* cls = FromGRPCError(a status error with code c); is = {k \in Class : Is(that error, k)}
 CodeRequired(c, cls, is) ==
     /\ c # OK => cls # "nil"                        \* never nil for a non-OK code
-    /\ Cardinality(is) <= 1                         \* exactly one class (with cls # "nil")
+    /\ Cardinality(is) <= 1                         \* exactly one class (with cls # "nil") ...
+    /\ c # OK => is = {cls}                         \* ... and Is() names the very class FromGRPCError reports
 
 \* The same requirements as records sent to the replayer (a field is present only where the
 \* property requires something; see errsCheckReq in errs.go).
